@@ -338,6 +338,12 @@ func init() {
 		}
 		return ""
 	})
+	E("(reflect.rtype).PkgPath", func(fr *frame, args []value) value {
+		if n, ok := args[0].(rtype).t.(*types.Named); ok && n.Obj().Pkg() != nil {
+			return n.Obj().Pkg().Path()
+		}
+		return ""
+	})
 	E("(reflect.rtype).FieldByName", func(fr *frame, args []value) value {
 		st := args[0].(rtype).t.Underlying().(*types.Struct)
 		name := args[1].(string)
